@@ -78,6 +78,14 @@ func NamedType(t string) string {
 	return strings.NewReplacer("[", "", "]", "", "!", "").Replace(t)
 }
 
+// typedFor returns the field with the type this subgraph declares for it.
+func (l *Layout) typedFor(typeName string, f Field, sg int) Field {
+	if t := l.SubgraphType[FieldRef{typeName, f.Name}][sg]; t != "" {
+		f.Type = t
+	}
+	return f
+}
+
 func fieldSDL(f Field, extra string) string {
 	var sb strings.Builder
 	sb.WriteString("  " + f.Name)
@@ -162,7 +170,11 @@ type Layout struct {
 	// KeyUse: entity type -> subgraph -> how that subgraph declares the entity's
 	// keys (nil / missing: every key of the type, every member resolved there).
 	KeyUse map[string]map[int]*KeyUse
-	Name   string
+	// SubgraphType: the type text a subgraph declares for a field when it differs
+	// from the supergraph's (a subgraph may be stricter: `ID!` where the composed
+	// supergraph has `ID`). Nil: every subgraph uses the supergraph type.
+	SubgraphType map[FieldRef]map[int]string
+	Name         string
 }
 
 // KeyUse describes the keys of one entity in one subgraph: the kinds of keys the
@@ -537,9 +549,9 @@ func (l *Layout) subgraphSDL(sg int) string {
 					if t.Kind == "object" && !f.Key && (len(l.owners(FieldRef{t.Name, f.Name})) > 1 || (!t.IsEntity() && !t.IsRoot())) {
 						extra += " @shareable"
 					}
-					sb.WriteString(fieldSDL(f, extra))
+					sb.WriteString(fieldSDL(l.typedFor(t.Name, f, sg), extra))
 				case u.external[f.Name]:
-					sb.WriteString(fieldSDL(f, " @external"))
+					sb.WriteString(fieldSDL(l.typedFor(t.Name, f, sg), " @external"))
 				}
 			}
 			sb.WriteString("}\n")
